@@ -33,7 +33,7 @@ var c18Exempt = map[string]string{
 
 func runC18(x *Ctx) {
 	x.C.Rule("C18.R1", "no error of a stream-related call is dropped in the stream-handling code", 40)
-	x.C.Rule("C18.R2", "ldRead: unexpected EOF inside a section is not a clean end", 4)
+	x.C.Rule("C18.R2", "ldRead: unexpected EOF inside a section is not a clean end; no other refusal", 5)
 	x.C.Rule("C18.R3", "CIDReader latches read errors; CID() reports them", 3)
 	x.C.Rule("C18.R4", "stream code shares no pooled state that outlives a call", 2)
 	carWriterAbort(x, "C18.R1")
@@ -224,7 +224,9 @@ func errorDiscipline(x *Ctx, S map[*ssa.Function]bool) {
 // deferredErrorCells: a function literal run by defer can hand an error to the caller only through a named
 // result of the enclosing function. An error it stores into any other captured variable (a local that merely
 // has the usual name) is lost: the function reports success although the deferred flush / close failed.
-func deferredErrorCells(x *Ctx, S map[*ssa.Function]bool) {
+func deferredErrorCells(x *Ctx, S map[*ssa.Function]bool) { deferredErrorCellsRule(x, S, "C18.R1") }
+
+func deferredErrorCellsRule(x *Ctx, S map[*ssa.Function]bool, rule string) {
 	errT := types.Universe.Lookup("error").Type()
 	var fns []*ssa.Function
 	for f := range S {
@@ -275,7 +277,7 @@ func deferredErrorCells(x *Ctx, S map[*ssa.Function]bool) {
 						}
 					}
 					name := fv.Name()
-					x.C.Obl("C18.R1", load.ShortName(parent)+"|deferred-error-cell:"+name, x.P.Pos(d.Pos()),
+					x.C.Obl(rule, load.ShortName(parent)+"|deferred-error-cell:"+name, x.P.Pos(d.Pos()),
 						"an error stored by a deferred function literal goes into a named result of the enclosing function", isResult,
 						"the deferred function literal stores an error into "+name+", which is not a named result of "+load.ShortName(parent)+": the error (of a final flush, a close) never reaches the caller")
 				}
@@ -455,4 +457,36 @@ func ldReadRules(x *Ctx, f *ssa.Function) {
 	}
 	// size checks
 	x.noPath("C18.R2", "zero-size", f, paths.WantSuccess, paths.ValueIs("call[encoding/binary.ReadUvarint](arg0)#0", 0), 0, "a zero-length section is rejected")
+	// closed world: a section is refused only because a read failed, because its length is zero, or because it is
+	// above the size cap. Any other refusal (a comparison with what happens to be buffered, with a Len() of the
+	// source) refuses containers the writer produces.
+	{
+		bad, n := "", 0
+		for _, p := range x.pathsQuiet(f) {
+			if p.End != paths.EndReturn {
+				continue
+			}
+			if o, _ := p.ErrorOutcome(); o == paths.Success {
+				continue
+			}
+			n++
+			explained := false
+			for _, fc := range p.Facts {
+				a := fc.Atom
+				if xx := paths.NilCheckOf(a); xx != nil && !fc.Pol && xx.Op == "extract" && len(xx.Args) == 1 && (xx.Args[0].Op == "call" || xx.Args[0].Op == "invoke") && !strings.HasPrefix(xx.Args[0].Name, "pkg/container.") {
+					explained = true // a read of the underlying stream failed
+				}
+				if fc.Pol && a.Op == "eq" && len(a.Args) == 2 && (a.Args[1].IsConst("0") || a.Args[0].IsConst("0")) && strings.Contains(a.String(), "ReadUvarint") {
+					explained = true // zero length
+				}
+				if fc.Pol && a.Op == "lt" && strings.Contains(a.String(), "maxAllowedSectionSize") {
+					explained = true // above the cap
+				}
+			}
+			if !explained {
+				bad += "ldRead refuses a section for another reason than a failed read, a zero length or the size cap:\n" + p.String() + "\n"
+			}
+		}
+		x.C.Obl("C18.R2", "no-other-refusal:ldRead", x.pos(f), "a section is refused only for a failed read, a zero length or a length above the cap", bad == "" && n >= 4, firstLines(bad, 12))
+	}
 }
